@@ -7,6 +7,9 @@ CHECKS = {
  "C05": dict(cat="exploration", tech="runtime monitoring: child-process crash monitor + step-budget hooks in scanner/parser + RLIMIT_CPU and Go deadlock detector on isolated re-run",
    text="Process-level runtime monitoring of parse.SoyFile / parse.Expr / ParseGlobals on generated hostile inputs (all prefixes of valid files, tag-dictionary sequences in every block context, token edits, random bytes): panic at the call boundary, death of the process (scanner-goroutine panic), step budgets at hooks in the scanner and parser loops, CPU limit and deadlock detector on isolated re-runs. Held on the inputs executed, nothing more.",
    note="Termination is restated as bounded progress: at most 64*(n+64) scanner steps and token reads for n input bytes. Trusts the Go runtime, RLIMIT_CPU and the harness's input generators.", ref="DESIGN.md §6 C05, §3.3"),
+ "C18": dict(cat="exploration", tech="runtime monitoring: live-scanner gauge at a hook + goroutine census (runtime.Stack) after every parse return, goroutine count at end of each sequence",
+   text="After every return of parse.SoyFile / Bundle.Compile / parse.Expr / soy.ParseGlobals in long in-process sequences over the hostile input families, the hook gauge of live scanner goroutines must be back to its previous value; a census showing a scanner blocked in chan send after the return is the refuting observation; the goroutine count at the end of each sequence must equal the baseline. Held on the sequences executed.",
+   note="Gauge hook (build tag verif) cross-checked against the goroutine census every 256 calls; a still-runnable scanner is waited for, never judged by time.", ref="DESIGN.md §6 C18"),
 }
 PENDING = "check not built yet (planned with runtime monitoring, see DESIGN.md §6); not claimed"
 props = [json.loads(l)['id'] for l in open('/verif/properties.jsonl')]
